@@ -754,4 +754,50 @@ def Held (n : String) (V : Nat) (b : RSpec) (U : Nat) (sys : Sys) : Prop :=
 instance (n : String) (V : Nat) (b : RSpec) (U : Nat) : DecidablePred (Held n V b U) :=
   fun sys => by unfold Held; exact inferInstance
 
+/-- `RespectOwnerRefs` (reconciler.go): the option acts on a current object that is a Usage by
+GROUP and KIND - any served version (fix D30) -/
+def composerRespects (av kind : String) : Bool :=
+  groupOf av == "apiextensions.crossplane.io" && kind == "Usage"
+
+/-! ### several workers: reconciles of Usages of different resources -/
+
+/-- the reconcile has read its Usage -/
+def Pc.holds : Pc → Bool
+  | .getUsage => false
+  | _ => true
+
+/-- the reconcile holds a Usage whose spec.of is resolved: it works on an index key -/
+def Thread.keyed (t : Thread) : Bool := t.pc.holds && t.u.of.name != ""
+
+/-- **per-resource serialisation**: no two in-flight reconciles hold Usages of the same used
+resource (same rendered index key). MaxConcurrentReconciles = 1 is the special case of at most
+one thread; with more workers this is what a work queue keyed by the USED resource would give
+(controller-runtime's queue is keyed by the Usage: it does NOT give it - D16). -/
+def keySerial (sys : Sys) : Prop :=
+  ∀ t1 ∈ sys.threads, ∀ t2 ∈ sys.threads, t1.uname ≠ t2.uname → t1.keyed = true → t2.keyed = true →
+    indexValue t1.u.of.av t1.u.of.kind t1.u.of.name ≠ indexValue t2.u.of.av t2.u.of.kind t2.u.of.name
+
+instance : DecidablePred keySerial := fun sys => by unfold keySerial; exact inferInstance
+
+/-- `P` holds in the state BEFORE every action of the schedule -/
+def Before (P : Sys → Prop) : Sys → List Action → Prop
+  | _, [] => True
+  | sys, a :: as => P sys ∧ Before P (sys.exec a).1 as
+
+instance Before.dec (P : Sys → Prop) [DecidablePred P] : (sys : Sys) → (as : List Action) → Decidable (Before P sys as)
+  | _, [] => inferInstanceAs (Decidable True)
+  | sys, a :: as => @instDecidableAnd _ _ _ (Before.dec P (sys.exec a).1 as)
+
+/-! ### identifiers as the API server admits them (domain of the index key's injectivity) -/
+
+/-- no upper-case letter: API groups (DNS subdomains, "" for the core group) and object names
+(RFC 1123 subdomains / path segments of custom resources) as the API server validates them -/
+def lowerId (s : String) : Prop := ∀ c ∈ s.toList, c.isUpper = false
+
+instance (s : String) : Decidable (lowerId s) := by unfold lowerId; exact inferInstance
+
+/-- a Kind: starts with an upper-case letter and contains no dot (CamelCase; the dot-freeness is
+enforced for CRDs - DNS-1035 label after lower-casing -, the capital is the API convention) -/
+def kindId (s : String) : Prop := (∃ c cs, s.toList = c :: cs ∧ c.isUpper = true) ∧ '.' ∉ s.toList
+
 end Xp.C19
